@@ -189,6 +189,14 @@ def mutate(base: bytes, muts: list) -> bytes | None:
                     root = new
                 else:
                     parent.kids[pos] = new
+        elif m["m"] == "cuthead":
+            w = m["w"]
+            ai = {1: 24, 2: 25, 4: 26, 8: 27}[w]
+            new = Node("raw", bytes([(m["mt"] << 5) | ai]) + b"\x00" * ((w - 1) if m["f"] else 0))
+            if parent is None:
+                root = new
+            else:
+                parent.kids[pos] = new
         elif m["m"] == "nest":
             new = Node("raw", b"\x81" * m["d"] + enc(n))
             if parent is None:
@@ -254,7 +262,9 @@ def run_workers(ctx, mutants: dict):
 
 def run(ctx: core.Check):
     ctx.cov["rule"] = ("mutant = base envelope (flat / hierarchical / signed) + sequence of mutations from Parser_MC: every single-node "
-                       "replacement by 20 CBOR kinds, every truncation, length inflation to 2^8/16/32/63 - 1, nesting to 10..1100; "
+                       "replacement by 20 CBOR kinds, every truncation, length inflation to 2^8/16/32/63 - 1, nesting to 10..1100, heads "
+                       "with a cut-short length field (major types 2-5 x 1/2/4/8-byte fields x 0 or w-1 bytes present) in place of "
+                       "every node (inside bstr wrappers: well-formed outside, cut short inside); bare cut-short heads as whole input; "
                        "sequences of 2-3 mutations and seeded random byte edits. Distinct & non-trivial = distinct mutant byte "
                        "strings that differ from the base.")
     d = ctx.tmp("c17")
@@ -304,6 +314,14 @@ def run(ctx: core.Check):
             n += 1
             mutants[n] = bytes(b)
             meta[n] = {"base": bi, "muts": "random-bytes"}
+    # bare cut-short heads and other tiny whole inputs (no envelope around them)
+    tiny = [b""] + [bytes([b0]) + b"\x00" * z for b0 in range(256) for z in ((0, 1, 3, 7) if (b0 & 0x1F) >= 24 else (0,))]
+    if ctx.quick:
+        tiny = tiny[::3]
+    for t in tiny:
+        n += 1
+        mutants[n] = t
+        meta[n] = {"base": -1, "muts": "tiny-input"}
     ctx.note(f"Use C: {len(mutants)} mutants into the real parser (16 disposable workers)")
     res = run_workers(ctx, mutants)
     tr = toolrun.Trace()
